@@ -229,6 +229,7 @@ func checkC19(p *Program, r *Report) {
 	checkSessionTypestate(p, r, "C19.session-valid")
 	// ---- a loaded trie renders what was loaded: every field String() reads is replaced by every load
 	checkFreshFor(p, r, "C19.fresh", str, "String", 1)
+	checkRankEnd(p, r, "C19.rank-end", fs)
 }
 
 func isU64Slice(t types.Type) bool {
